@@ -311,6 +311,28 @@ impl Metrics {
 }
 
 /// Transport type for metrics tracking
+#[cfg(feature = "verif")]
+impl Metrics {
+    /// Verification hook: copy of the denied-keys table, sorted by key (None = tracking disabled).
+    pub fn verif_denied_table(&self) -> Option<Vec<(String, u64)>> {
+        let guard = self.top_denied_keys.as_ref()?.lock().ok()?;
+        let mut v: Vec<(String, u64)> = guard.counts.iter().map(|(k, c)| (k.clone(), *c)).collect();
+        v.sort();
+        Some(v)
+    }
+
+    /// Verification hook: the report `export_prometheus` would list (in its order).
+    pub fn verif_top_denied(&self) -> Option<Vec<(String, u64)>> {
+        let guard = self.top_denied_keys.as_ref()?.lock().ok()?;
+        Some(guard.get_top())
+    }
+
+    /// Verification hook: the label escaping used by the exporter.
+    pub fn verif_escape_label(s: &str) -> String {
+        Self::escape_prometheus_label(s)
+    }
+}
+
 #[derive(Debug, Clone, Copy)]
 pub enum Transport {
     Http,
